@@ -147,6 +147,22 @@ fn robots(ctx: &Ctx) -> Vec<Parameters> {
     for (_, p) in presets() {
         out.push(p);
     }
+    // forward kinematics is defined for any parameter values: zero and negative lengths too
+    for (a1, a2, b, c) in [
+        (0.1, -0.1, 0.0, [0.5, 0.0, 0.6, 0.1]),
+        (0.1, 0.0, 0.0, [0.5, 0.6, 0.0, 0.1]),
+        (0.0, 0.0, 0.0, [0.0, 0.5, 0.5, 0.0]),
+        (0.0, 0.0, 0.0, [0.0, 0.0, 0.0, 0.0]),
+        (0.1, 0.0, 0.02, [0.5, 0.6, -0.6, 0.1]),
+        (-0.2, -0.1, 0.0, [-0.3, -0.6, -0.5, -0.1]),
+        (0.1, 0.1, 0.0, [0.5, -0.6, 0.55, 0.1]),
+    ] {
+        for s in sign_patterns(false) {
+            for o in offset_sets() {
+                out.push(make(a1, a2, b, c, s, o, 6));
+            }
+        }
+    }
     out
 }
 
